@@ -10,7 +10,45 @@ COMMON_TB = [
 
 NOT_CLAIMED_REASON = {}
 
+TRAV_TB = [
+    "hand-written Lean model of traverse.rs / symbol.rs (AidlVerif/Model/Traverse.lean, Symbol.lean); closures are modelled as state-passing functions, ControlFlow::Break as `some`",
+    "trees are the implementation's validated trees (so the parser and validation are outside this check)",
+]
+
 PROPS = {
+    "C15": {
+        "modules": ["AidlVerif.Props.C15"],
+        "theorems": ["Aidl.Props.C15.walk_eq", "Aidl.Props.C15.find_eq", "Aidl.Props.C15.filter_eq", "Aidl.Props.C15.level_sublist", "Aidl.Props.C15.all_types_once", "Aidl.Props.C15.walk_types_eq", "Aidl.Props.C15.walk_args_eq"],
+        "suites": ["walk"],
+        "keys": {"corr": ["C15"], "spec": ["C15"], "outcome": True},
+        "trusted_base": TRAV_TB,
+        "assumptions": ["symbols are identified by address in the harness and by structural equality in the driver (distinct nodes of one tree have distinct ranges or names)"],
+        "level_text": "Theorems (all trees, all three filter levels, ALL closures incl. stateful ones, all break values): the control-flow walker is the short-circuit fold of the closure over the declarative visit list `Spec.C15.symbols` — package, imports, item, members, per method the return type then each argument followed by its type, every type at any nesting depth, an array's element before the array (`walk_eq`, mutual induction over the nested type tree); hence `find_symbol` returns the first visited symbol on which the predicate answers true and stops there, also for the package (`find_eq`, `find_pure`), `filter_symbols` returns exactly the satisfying symbols in visit order (`filter_eq`), the coarser levels are sub-sequences (`level_sublist`, `level_items`), the type symbols of the detailed level are exactly all type nodes once each (`all_types_once`), and the type / method / argument walkers are folds over all types (any depth) / methods / arguments in source order.",
+        "level_note": "Trusted: Lean kernel (+ propext, Classical.choice, Quot.sound), the model of traverse.rs tied to the code by the correspondence run (visit lists, level lists, find/filter results incl. number of predicate calls, three walkers), the harness.",
+        "rule": "suite walk: validated random multi-file projects (all item kinds, member mixes, types nested to depth 3) x 3 filter levels x predicates 'is the k-th visited symbol' for every k (stateful), 'is of kind K' for the 11 kinds, 'name equals N' for up to 12 names. distinct = distinct input digest; non-trivial = more than 3 symbols",
+    },
+    "C16": {
+        "modules": ["AidlVerif.Props.C16"],
+        "theorems": ["Aidl.Props.C16.contains_iff", "Aidl.Props.C16.find_at_eq", "Aidl.Props.C16.point_inside_finds", "Aidl.Props.C16.nothing_outside", "Aidl.Props.C16.offsets_inside"],
+        "suites": ["walkpos"],
+        "keys": {"corr": ["C16"], "spec": ["C16"], "assume": ["C16"], "outcome": True},
+        "trusted_base": TRAV_TB + ["line/column of an offset come from the line-col crate (grapheme clusters); only monotonicity in the offset is assumed (`LcMonotone`), and it is checked for every generated text"],
+        "assumptions": ["LcMonotone: (line, column) is lexicographically monotone in the byte offset — evaluated on the position table of every case"],
+        "level_text": "Theorems (all trees, filters, positions): the four early returns of `range_contains` are exactly start <=lex position <=lex end (`contains_iff`); position lookup returns the FIRST visited symbol whose reported range contains the position, else nothing (`find_at_eq`, through C15's refinement); a position inside any visited symbol is always answered with a symbol containing it (`point_inside_finds`), a position outside all of them with nothing (`nothing_outside`); with a monotone line/column lookup every offset from the first character of a name range through the position after its last character is such a position (`offsets_inside`).",
+        "level_note": "Trusted: Lean kernel (+ propext, Classical.choice, Quot.sound), the model of traverse.rs tied to the code by the correspondence run at EVERY character position of every generated document x 3 filter levels, the harness, the line-col crate.",
+        "rule": "suite walkpos: validated random projects (<= 2 files) in plain / tight / wild layouts (multi-line, CRLF, Unicode whitespace, multi-byte comment text before names on the same line) x every character position (and the end position) x 3 filter levels. distinct = distinct input digest; non-trivial = at least one position looked up",
+    },
+    "C17": {
+        "modules": ["AidlVerif.Props.C17"],
+        "theorems": ["Aidl.Props.C17.item_qname_is_key", "Aidl.Props.C17.qualified_eq", "Aidl.Props.C17.defined_from_project", "Aidl.Props.C17.resolved_to_item"],
+        "suites": ["walk"],
+        "keys": {"corr": ["C17"], "spec": ["C17"], "outcome": True},
+        "trusted_base": TRAV_TB + COMMON_TB[:1],
+        "assumptions": ["`hparser` of resolved_to_item: the parser never produces resolved kinds (custom types come out `unresolved`) — true of the grammar actions, and of every tree the harness feeds"],
+        "level_text": "Theorems: the qualified name of a file's item symbol is `package.Name` = the key under which the file is registered, for the three kinds alike (`item_qname_is_key`); `get_qualified_name` is what the statement prescribes for every symbol variant — `Owner::member`, dotted names for imports and the package, the stored identifier for plain names (`qualified_eq`, `item_name`); every key consulted by validation is the key of a file currently in the parser (`defined_from_project`, induction over the key-collecting fold); and in any validated file, under any hash order, a type node at any depth whose kind is an item kind with key k comes with a project file of key k whose item symbol reports the same qualified name as the type symbol (`resolved_to_item`, through C05's `nodes_validated` and `classify_item_kind`).",
+        "level_note": "Trusted: Lean kernel (+ propext, Classical.choice, Quot.sound), the models of symbol.rs / ast.rs get_key / validation.rs tied to the code by the correspondence run (tag, plain name, qualified name of every visited symbol of every file), the harness.",
+        "rule": "suite walk: validated random multi-file projects: every item kind x package depth 1-2 x references from other files at depth <= 3 (simple, partially and fully qualified). distinct = distinct input digest; non-trivial = more than 3 symbols",
+    },
     "C06": {
         "modules": ["AidlVerif.Props.C06"],
         "theorems": ["Aidl.Props.C06.checkImports_spec", "Aidl.Props.C06.checkDecls_spec", "Aidl.Props.C06.resolved_is_deep", "Aidl.Props.C06.holds"],
